@@ -6,3 +6,4 @@ import Gomjml.Props.C13
 #print axioms Gomjml.Props.C13.C13_store_sites
 #print axioms Gomjml.Props.C13.C13_concurrent
 #print axioms Gomjml.Props.C13.C13_concurrent_store_sound
+#print axioms Gomjml.Props.C13.C13_key_is_the_template
